@@ -754,8 +754,8 @@ class C01(EvalProp):
                 if text.startswith('.'):
                     text = text[1:]
             pad = None
-            if not nodollar and not has_filter and r.random() < 0.2:
-                # C18_outer_spaces_same_tree: blanks before and after the path
+            if not nodollar and r.random() < 0.2:
+                # C18_outer_spaces_same_tree (and _with_filters): blanks before and after the path
                 pad = (r.randint(0, 3), r.randint(0, 3))
                 text = ' ' * pad[0] + text + ' ' * pad[1]
             c = Case('ch%d' % i, text.encode('utf-8'), [doc], meta={'nsteps': len(spec), 'family': 'coq-chain-path'})
